@@ -107,8 +107,6 @@ class Ref:
         flags = {"over_quota": False, "zero_quota": self.T <= 0, "elect_tie": False, "elim_tie_random": False,
                  "elim_tie": False, "stuck": False, "leaves": 0, "winner_sets": set(), "truncated": False,
                  "rounds": 0, "surplus_transfer": False, "exhausted": False, "default": False, "elim": False}
-        if self.T <= 0:
-            return flags
         stack = [self.init]
         while stack:
             st = stack.pop()
